@@ -1,5 +1,6 @@
 pub mod c03;
 pub mod c10;
+pub mod c11;
 pub mod c12;
 pub mod c17;
 pub mod c19;
@@ -13,6 +14,7 @@ pub fn dispatch(ctx: &Ctx) -> i32 {
     match ctx.property.as_str() {
         "C03" => c03::run(ctx),
         "C10" => c10::run(ctx),
+        "C11" => c11::run(ctx),
         "C12" => c12::run(ctx),
         "C17" => c17::run(ctx),
         "C19" => c19::run(ctx),
